@@ -199,7 +199,7 @@ def _arr_view(lat, rep, obj):
     return lat.alpha_tris(obj.with_vertices(obj.vertices).triangles)
 
 
-def construct_records(st, src, base, model=None):
+def construct_records(st, src, base, model=None, given=None):
     recs = []
     lat = st.lat
     for rep in st.reps():
@@ -208,7 +208,10 @@ def construct_records(st, src, base, model=None):
         ta, off2 = _arr_view(lat, rep, o)
         tv, off3 = lat.alpha_tris(np.asarray(o.vertices)[np.asarray(o.indices)])
         r = dict(base, api="construct", rep=rep, src=src, lat=lat.lattice, off=off + off2 + off3,
-                 c=[], fl=False, w=F0, xo=0, yo=0, tris=t, tris_arr=ta, tris_vi=tv, n=int(len(o)), area2=lat.alpha_area(o.area))
+                 c=[], fl=False, w=F0, xo=0, yo=0, tris=t, tris_arr=ta, tris_vi=tv, n=int(len(o)), area2=lat.alpha_area(o.area),
+                 mv=[], mi=[])
+        if rep == "array" and given is not None:  # the abstract vertices (fine units) and index triples the array was built from
+            r["mv"], r["mi"] = [[int(x), int(y)] for x, y in given[0]], [[int(j) for j in t] for t in given[1]]
         if rep == "coord":
             r.update(model)
         recs.append(r)
@@ -395,7 +398,7 @@ def realise_free(lat, V, I, how, rng, base, src, dt="f64", fine=1):
         obj = ns.arr
     else:
         raise core.MachineryError(how)
-    return obj, recs
+    return obj, recs, (Vp, Ip)
 
 
 def _hash_rng(seed, ints):
@@ -438,10 +441,10 @@ def replay_free_group(args):
         lat = free_lattice(rng, whole=whole, fine=FREE_FINE)
         base = {"p": "C20", "dt": dt, "g": {"kind": "free-beh", "v": v, "ix": ix, "how": how, "whole": bool(whole), "dt": dt,
                                            "frame": lat.describe()}}
-        obj, rs = realise_free(lat, vf, I0, how, rng, base, "free", dt=dt, fine=FREE_FINE)
+        obj, rs, given = realise_free(lat, vf, I0, how, rng, base, "free", dt=dt, fine=FREE_FINE)
         recs.extend(rs)
         st0 = State(lat, None, obj)
-        recs.extend(construct_records(st0, "free", dict(base, path=[])))
+        recs.extend(construct_records(st0, "free", dict(base, path=[]), given=given))
         memo = {(): st0}
         key = lambda p: tuple(s_["a"] for s_ in p)
         for p_ in sorted(paths, key=len):
@@ -583,7 +586,7 @@ def random_instance(args):
         obj = ArrayTriangles(indices=np.array(I), vertices=verts)
         st = State(lat, None, obj)
         src = "free"
-        recs += construct_records(st, src, base)
+        recs += construct_records(st, src, base, given=(V.tolist(), I))
     n0 = len(st.tris(st.reps()[0])[0])
     if n0 == 0 or n0 > 60:
         return recs
@@ -641,6 +644,7 @@ def irregular_instance(rng, base):
                 break
         else:
             return []
+        given = (V.tolist(), np.asarray(reg.indices).tolist())
         obj = reg.with_vertices(cast(np.array([lat.gamma(int(x), int(y)) for x, y in V], dtype=float), dt))
         src = "distorted"
     else:
@@ -666,11 +670,11 @@ def irregular_instance(rng, base):
         remap = {j: k_ for k_, j in enumerate(used)}
         V = V[used]
         I = [[remap[j] for j in t] for t in sorted(I)]
-        obj, rs = realise_free(lat, V.tolist(), I, how, rng, base, "free", dt=dt)
+        obj, rs, given = realise_free(lat, V.tolist(), I, how, rng, base, "free", dt=dt)
         recs += rs
         src = "free"
     st = State(lat, None, obj)
-    recs += construct_records(st, src, base)
+    recs += construct_records(st, src, base, given=given)
     path = []
     if rng.random() < 0.3 and len(st.tris("array")[0]) > 3:
         n = len(st.tris("array")[0])
